@@ -205,6 +205,10 @@ def run(ck):
     segment_endpoints(ck, "C11.15", only_label_numbers=True)
     from . import c14 as _c14
     _c14.run(RuleView(ck, {"C14.6": "C11.15"}, only_constructs=(":pre-order:strand",)))
+    ck.clause("C11.16", "a peak keeps the score it is given (as C16.8): a rounded score turns near-equal candidates of the two strands into "
+                        "a tie, which enumeration order - forward first - decides")
+    from .c12 import stored_unconverted as _su11
+    _su11(RuleView(ck, {"C12.7": "C11.16"}, only_files=("src/correlation/peak.py",)), "C12.7")
     ck.clause("C11.13", "whether two neighbouring segments are in conflict is decided from coordinates alone: no pre-test on label "
                         "numbers, which descend along a reverse-strand query (as C15.6)")
     from .c15 import conflict_decision
